@@ -481,7 +481,7 @@ func cmdCheck(args []string) int {
 			eng.NoopFuncs[n] = true
 		}
 		h := &symgo.Harness{Name: s.Name, Fn: fn, Bounds: s.Bounds, MaxPaths: s.MaxPaths, MaxSteps: s.MaxSteps, MaxFanout: s.MaxFanout,
-			MaxSwitches: s.MaxSwitch, PreferInt: s.Prefer == "int", Reach: s.Reach, Tier: *tier}
+			MaxSwitches: s.MaxSwitch, PreferInt: s.Prefer == "int", PreferCVC5: s.Prefer == "cvc5", Reach: s.Reach, Tier: *tier}
 		if *oneScript != "" {
 			res := eng.RunScript(h, *oneScript)
 			fmt.Printf("status=%s msg=%s\nscript=%v\nreached=%v\nobs=%v\n", res.Status, res.Msg, res.Script, res.Reached, res.Observation)
